@@ -82,6 +82,30 @@ CLAIMED = {
              "Signature catalogue is an enumeration, not all signatures.",
         technique="contract-based deductive verification: symbolic execution of the real functions with an uninterpreted user program + z3 VCs",
     ),
+    "C18": dict(
+        category="proof",
+        text=("Frame conditions proved by symbolic execution of the real public operations with mutation-tracked arguments: "
+              "for a catalogue of 29 calls (all public Grid methods, pad, apply_as_grid_ufunc, constructor, transform with stubbed "
+              "kernels; scalar and vector; simple and face-connected grids; single and multi axis; well-posed and ill-posed) every "
+              "dictionary / list / array argument, the dataset and the Grid's settings are unchanged at every exit, normal or "
+              "exceptional, on every path and for all sizes and data. History-independence follows by induction over the call sequence."),
+        design_ref="DESIGN.md 7/C18",
+        note=COMMON_NOTE + "Assumes xarray/numpy calls mutate their inputs only through the tracked setters (name, attrs, item "
+             "assignment). The catalogue of operations is an enumeration; sequences are covered by the inductive argument, not enumerated.",
+        technique="contract-based deductive verification: frame (assigns-nothing) clauses checked by symbolic execution of the real functions",
+    ),
+    "C19": dict(
+        category="proof",
+        text=("Deductive proof over a coordinate-token model: for diff/interp/min/max/cumsum on padded, unpadded and cumsum paths, "
+              "keep_coords true/false/default, inputs with and without the dataset's coordinates, datasets with full / partial / no "
+              "dimension coordinates and 0-D/1-D/N-D auxiliary coordinates: the new dimension carries exactly the dataset's coordinate "
+              "of the target position (values and attrs token), untouched dimensions keep theirs, no coordinate on the abandoned "
+              "dimension survives, other dataset coordinates are attached iff they fit and keep_coords, nothing else is attached, the "
+              "name is kept, and the values satisfy the same specification with and without input labels."),
+        design_ref="DESIGN.md 7/C19",
+        note=COMMON_NOTE + "Coordinates are abstracted to content tokens; the coordinate-propagation clause of apply_ufunc is assumed.",
+        technique="contract-based deductive verification: symbolic execution of the real functions over a coordinate-token model",
+    ),
 }
 
 NOT_YET = {}
